@@ -259,6 +259,10 @@ def gen_doc(rng: random.Random, n_blocks=None, globals_p=0.5, cc=True, copies=Tr
         for _ in range(rng.randint(0 if rng.random() < 0.12 else 1, 5)):
             ds = [rng.choice(pool) for _ in range(rng.randint(0 if rng.random() < 0.05 else 1, 5))]
             lines.append([rng.choice(NUM_FORMS[:4] + BF_CHOICES), ds, rng.random() < 0.25, rand_model(rng, defined, malias, all_models=rng.random() < 0.5)])
+        if repeats and lines and rng.random() < 0.15:
+            # a line written twice, token for token (it is two lines of the table), next to each other or apart
+            src = rng.choice(lines)
+            lines.insert(rng.randint(0, len(lines)), [src[0], list(src[1]), src[2], src[3]])
         blocks.append(["decay", m, lines])
     stmts += blocks
     if cc:
